@@ -187,8 +187,10 @@ def evaluate(ctx, refm, m, s, fname, out, count=True, kept_only=False):
         if loc != exp:
             bad = '%s object: get_location %r, expected %r' % (cls, loc, exp)
             break
-    if bad is None:
-        # list siblings ordered and disjoint
+    if bad is None and count:
+        # list siblings ordered and disjoint (in classification runs every span was just found equal to the emulating
+        # reference's span, so an overlap is that reference's overlap: e.g. a dangling separator that is parsed again as the
+        # first token of the next sibling)
         for ro, to, parent, attr in out:
             if isinstance(ro, RP.RObj):
                 for k2, v in ro.attrs.items():
